@@ -12,8 +12,16 @@
                               context (buffer, at, packet_is_open, off_content, counters, saved
                               offsets) is the one left by the last recorded event record: the next
                               record is appended there, in the same packet
-   NOT proved (statement kept in DESIGN.md section 5, C07 (b)): atomicity of a tracing call that
-   passed its enabled test w.r.t. toggles performed by callbacks during it (simulation `sim`). *)
+     (b) C07_trace_atomic     two executions of the same tracing call from worlds that differ only
+                              in the value of is_tracing_enabled and in the toggle decisions of
+                              all remaining oracle answers (relation Spec.sim), both passing the
+                              enabled test, end in sim-related worlds: same log (callback entries,
+                              answers, stores, emitted packets with their bytes), same buffer,
+                              same position, same counters, same error state.  With
+                              C07_sim_no_toggles: same outcome as with callbacks that never toggle.
+                              C07_blocks_atomic: the same for every block used after the enabled
+                              test (reserve, open / close / full / clock callbacks, serialization)
+                              when in_tracing_section = 1. *)
 From Coq Require Import List Arith Bool ZArith String.
 Import ListNotations.
 From BT.Base Require Import Bits.
@@ -51,6 +59,33 @@ Theorem C07_reenable_resumes :
 Proof. exact reenable_resumes. Qed.
 Print Assumptions C07_reenable_resumes.
 
+(* Spec.sim w w': equal worlds except for is_tracing_enabled and for the a_toggle fields of the
+   remaining oracle answers (Spec.erase_toggle sets a_toggle to None) *)
+Theorem C07_trace_atomic :
+  forall d e args w w',
+    sim w w' ->
+    c_enabled (w_c (entry_world d w)) = true -> c_enabled (w_c (entry_world d w')) = true ->
+    sim (trace_fn d e args w) (trace_fn d e args w').
+Proof. exact trace_fn_atomic. Qed.
+Print Assumptions C07_trace_atomic.
+
+Theorem C07_sim_no_toggles :
+  forall w, sim w (mk_w (w_c w) (map erase_toggle (w_or w)) (w_clk w) (w_log w) (w_err w) (w_pcargs w)).
+Proof. exact sim_no_toggles. Qed.
+Print Assumptions C07_sim_no_toggles.
+
+Theorem C07_blocks_atomic :
+  forall d w w',
+    sim w w' -> c_in_ts (w_c w) = true ->
+    (forall n, fst (reserve d w n) = fst (reserve d w' n) /\
+               sim (snd (reserve d w n)) (snd (reserve d w' n))) /\
+    sim (open_cb d w) (open_cb d w') /\ sim (close_cb d w) (close_cb d w') /\
+    (fst (full_cb w) = fst (full_cb w') /\ sim (snd (full_cb w)) (snd (full_cb w'))) /\
+    (fst (clock_cb d w) = fst (clock_cb d w') /\ sim (snd (clock_cb d w)) (snd (clock_cb d w'))) /\
+    (forall ps, sim (ser_parts d w ps) (ser_parts d w' ps)).
+Proof. exact blocks_atomic. Qed.
+Print Assumptions C07_blocks_atomic.
+
 (* non-vacuity: in the example history the call `ex_tr 4` (6th call) is made with tracing disabled
    from a reachable world with an open, non-empty packet, and satisfies the hypothesis of (a), (c) *)
 Definition ex_w5 : world := run ex_d 16 [] ex_or (firstn 5 ex_h).
@@ -59,3 +94,20 @@ Example C07_example :
   disabled_calls ex_d ex_w5 [ex_tr 4] /\
   c_at (w_c (fold_left (step ex_d) [ex_tr 4; CEnable true] ex_w5)) = 88.
 Proof. vm_compute. repeat split; try reflexivity. eauto. Qed.
+
+(* non-vacuity of (b): the third tracing call of the example switches packets (close, full, open
+   callbacks); with an oracle whose close callback disables tracing and whose open callback
+   re-enables it, the call passes its test and the outcome is the one without toggles *)
+Definition ex_w3 : world := run ex_d 16 [] [] (firstn 3 ex_h).
+Definition ex_wt : world :=
+  mk_w (w_c ex_w3) [default_ans; mk_ans false (Some false) None 1; default_ans; mk_ans false (Some true) None 1]
+       (w_clk ex_w3) (w_log ex_w3) (w_err ex_w3) (w_pcargs ex_w3).
+Definition ex_wn : world :=
+  mk_w (w_c ex_w3) [default_ans; default_ans; default_ans; default_ans]
+       (w_clk ex_w3) (w_log ex_w3) (w_err ex_w3) (w_pcargs ex_w3).
+Example C07_example_atomic :
+  sim ex_wt ex_wn /\
+  c_enabled (w_c (entry_world ex_d ex_wt)) = true /\ c_enabled (w_c (entry_world ex_d ex_wn)) = true /\
+  npk (w_log (trace_fn ex_d (mk_ert 0 None (Some (mk_sft 8 [("x", u8)]))) [VArr [VInt 3]] ex_wt)) = 1 /\
+  w_err (trace_fn ex_d (mk_ert 0 None (Some (mk_sft 8 [("x", u8)]))) [VArr [VInt 3]] ex_wt) = false.
+Proof. vm_compute. repeat split; reflexivity. Qed.
